@@ -307,12 +307,15 @@ example : replaceAll ([40] ++ marker 1 ++ [43] ++ marker 2 ++ [42] ++ marker 1 +
     replace / length / empty / npos / `=` / `+=` / `!=` / `if` / `while` / `return`), run on ANY three
     strings with the semantics of std::string (size_t idealised: strings shorter than npos), returns
     exactly the model's `replaceAll s frm to` – by the loop invariant `s = done ++ rest`,
-    `start = |done|`, `done` final. -/
+    `start = |done|`, `done` final.  The extracted term must be the loop as shipped (`canonReplaceAll`) or
+    the same loop after an early `if (from.empty()) return s;` (`canonReplaceAll2`), up to the names of the
+    variables and `size()` / `length()`. -/
 theorem replace_all_code_is_model (s frm to : List Ch) :
     runBody Gen.replaceAllBody s frm to = some (replaceAll s frm to) := by
-  have h : Gen.replaceAllBody = canonReplaceAll := by decide
-  rw [h]
-  exact canon_runs s frm to
+  have h : Gen.replaceAllBody = canonReplaceAll ∨ Gen.replaceAllBody = canonReplaceAll2 := by decide
+  rcases h with h | h <;> rw [h]
+  · exact canon_runs s frm to
+  · exact canon2_runs s frm to
 
 /-! ### numeric constants: what `std::to_string(double)` prints, read back -/
 
